@@ -1,5 +1,9 @@
-(* util/sysendian.h: model (interprets the store / load statements regenerated from the header,
-   in source order, on checked memory) and spec (byte order as defined, independent). *)
+(* util/sysendian.h: model (interprets the store / load statements regenerated from the header on
+   checked memory) and spec (byte order as defined, independent).  The translator lists the
+   statements / OR-ed terms in a canonical order (ascending shift) after checking that the stores
+   of a routine go to pairwise distinct constant indices and that no byte occurs in two terms:
+   such stores commute and | is commutative, so the source order is immaterial; otherwise it
+   refuses. *)
 From Coq Require Import Arith NArith List Lia Bool.
 From LCP Require Import Base.CheckedMem Util.EndianMem Gen.Repo_codec2.
 Import ListNotations.
